@@ -3,7 +3,7 @@ package main
 func init() {
 	checks["C03"] = &checkDef{
 		Level:       levelMC,
-		Explanation: "Two layers. (L1, client layer) the real singleClient.Do and clusterClient.Do with stub connections whose outcome per attempt is a decision (executed with reply, executed but reply lost in a transport error, not executed with transport error, LOADING/TRYAGAIN/CLUSTERDOWN, MOVED/ASK, errConnExpired, context ended); a ghost counter counts executions. Oracle: a command that is neither read-only nor marked retryable is executed at most once per call, every re-send follows a redirect or an errConnExpired — under the contract that a call completed with errConnExpired was not executed. (L2, pipe layer) that contract is the obligation of VerifC03_expiry: a real pipe with a connection lifetime (lifetime timer → expired() → Close with its 1 s grace PING), ring or flow-buffer queue, sync or pipelining start state, over an in-memory connection whose server either answers or has received the command but answers too late; delay-bounded schedules. Oracle: a call whose command the server has received never completes with errConnExpired.",
+		Explanation: "Two layers. (L1, client layer) singleClient.DoMulti batches mixing writes, reads and retryable writes with the connection dropping after the server executed a prefix (VerifC28_multi), and the real singleClient.Do and clusterClient.Do with stub connections whose outcome per attempt is a decision (executed with reply, executed but reply lost in a transport error, not executed with transport error, LOADING/TRYAGAIN/CLUSTERDOWN, MOVED/ASK, errConnExpired, context ended); a ghost counter counts executions. Oracle: a command that is neither read-only nor marked retryable is executed at most once per call, every re-send follows a redirect or an errConnExpired — under the contract that a call completed with errConnExpired was not executed. (L2, pipe layer) that contract is the obligation of VerifC03_expiry: a real pipe with a connection lifetime (lifetime timer → expired() → Close with its 1 s grace PING), ring or flow-buffer queue, sync or pipelining start state, over an in-memory connection whose server either answers or has received the command but answers too late; delay-bounded schedules. Oracle: a call whose command the server has received never completes with errConnExpired.",
 		Assumptions: []string{"timers (lifetime, Close's grace period) fire only when nothing else can run — i.e. the slow server's reply takes longer than lifetime + grace", "sequentially consistent memory; switches at visible operations"},
 		Trusted:     []string{"stub connections, verifConn and server (harness code); engine scheduler and timers"},
 		Outside:     []string{"DoMulti with MULTI/EXEC blocks (singleClient's partial re-send after errConnExpired), sentinel and standalone clients (same re-send-on-errConnExpired rule)", "server-side duplicate execution for reasons unrelated to the client"},
